@@ -389,6 +389,23 @@ type delList struct {
 	Ids []string `json:"ids"`
 }
 
+var stops sync.WaitGroup
+
+// stopLater shuts a server down in the background (a shutdown takes ~0.6 s of sleeping poll loops).
+func stopLater(s *t38.Srv, rm string) {
+	stops.Add(1)
+	go func() {
+		defer stops.Done()
+		s.StopAndRemove()
+		if rm != "" {
+			os.RemoveAll(rm)
+		}
+	}()
+}
+
+// WaitStops waits for the servers that are still shutting down.
+func WaitStops() { stops.Wait() }
+
 // Run executes one program.
 func Run(p *Program, o Options) (*Result, error) {
 	r := &runner{p: p, o: o, begin: map[int]int64{}, marks: map[string]int{}, roles: map[int]int{}, table: map[string]absCmd{}}
@@ -401,8 +418,7 @@ func Run(p *Program, o Options) (*Result, error) {
 	if err != nil {
 		return nil, err
 	}
-	defer os.RemoveAll(dir)
-	defer srv.Stop()
+	defer stopLater(srv, dir)
 	dial := func(s *t38.Srv) (*t38.Conn, error) {
 		c, err := s.Dial()
 		if err == nil {
@@ -846,7 +862,7 @@ func Run(p *Program, o Options) (*Result, error) {
 		close(stopFol)
 		folWG.Wait()
 		fc.Close()
-		fol.StopAndRemove()
+		stopLater(fol, "")
 		if folErr != nil {
 			return nil, fmt.Errorf("scenario %d: follower poller: %v", p.Sc, folErr)
 		}
@@ -870,7 +886,7 @@ func Run(p *Program, o Options) (*Result, error) {
 			reSample, err = takeSample(rc, u)
 			rc.Close()
 		}
-		rs.StopAndRemove()
+		stopLater(rs, "")
 		if err != nil {
 			return nil, err
 		}
@@ -898,7 +914,7 @@ func Run(p *Program, o Options) (*Result, error) {
 	folMu.Lock()
 	frs := append([]rawEv(nil), freads...)
 	folMu.Unlock()
-	sort.SliceStable(frs, func(a, b int) bool { return frs[a].tb < frs[b].tb })
+	sort.SliceStable(frs, func(a, b int) bool { return frs[a].te < frs[b].te })
 	lines, err := r.render(evs, frs, endEvent{
 		E: "end", Sc: p.Sc, T: r.us(endT), Aof: logRecs,
 		HasR: p.Restart, Restart: reSample, HasF: attached, Follower: folSample, Tf: r.us(tf) + 2,
@@ -994,7 +1010,8 @@ func (r *runner) render(evs, frs []rawEv, end endEvent) ([]string, error) {
 	}
 	fi := 0
 	addFreads := func(upto int64) {
-		for fi < len(frs) && r.us(frs[fi].tb) <= upto {
+		// a follower read is placed before a leader event only when it had completed before that event began
+		for fi < len(frs) && r.us(frs[fi].te)+2 < upto {
 			f := frs[fi]
 			out = append(out, freadEvent{"fread", sc, f.abs.K, f.abs.I, f.pres, r.us(f.tb) - 1, r.us(f.te) + 2})
 			fi++
@@ -1046,7 +1063,7 @@ func (r *runner) render(evs, frs []rawEv, end endEvent) ([]string, error) {
 			order = append(order, key)
 		case "xdel":
 			flush()
-			addFreads(r.us(e.te))
+			addFreads(r.us(e.clock))
 			out = append(out, xdelEvent{"xdel", sc, e.abs.K, e.abs.I, "", e.upd, r.us(e.clock), r.us(e.te) + 2})
 		case "xhook":
 			flush()
